@@ -271,6 +271,7 @@ pub fn scenario(ctx: &mut Ctx) -> ScResult {
     for i in 0..nclients {
         let tcp = ctx.ch.rare(1, 3);
         let mut sim = AgentSim::new(ctx, tcp);
+        sim.now = 0; // the event queue owns the clock here
         if let Some((l, p, o)) = &shared {
             sim.local_creds = l.clone();
             sim.peer_creds = p.clone();
